@@ -70,7 +70,7 @@ def _job_inner(args):
                 r['bounded'] = oblig.bounded_search(ob, grid, seeds)
             except Exception as e:   # noqa: BLE001
                 r['bounded'] = dict(found=False, tried=0, error='%s: %s' % (type(e).__name__, e))
-        if opts.get('conformance'):
+        if opts.get('conformance') and r['status'] not in ('out-of-reach', 'error'):
             import random
             rng = random.Random(opts.get('seed', 0) + 17)
             nd = oblig.GRIDS[grid]['nd']
